@@ -272,10 +272,12 @@ def run_shared(mod, M, rep, tier, mapping):
             orig[2](fix(rid), key, message, site, detail)
         return cond
     rep.check = check
+    before = set(rep.rules)
     try:
         mod.run(M, rep, tier, None)
     finally:
         rep.rule, rep.ok, rep.bad, rep.check = orig
     for rid in list(rep.rules):
-        if rid.startswith("_"):
+        # only what this call put there: an enclosing shared run still needs its own dropped rules until it is done
+        if rid.startswith("_") and rid not in before:
             del rep.rules[rid]
